@@ -126,15 +126,21 @@ def _fixed_operand_names(storage_base, names):
     if name_base is None:
         return None
     x = _peel(storage_base)
-    if not is_S(x, "elem"):
-        return None
-    coll = x.args[0]
     y = name_base
     while isinstance(y, ast.Attribute) and y.attr in ("T",):
         y = y.value
-    if isinstance(y, ast.Subscript) and isinstance(y.slice, ast.Constant) and isinstance(y.slice.value, int):
-        if _txt(y.value) == _txt(coll) and not _is_align_call(coll) and "align_" not in _txt(coll)[:60]:
-            return _txt(coll)
+    if not (isinstance(y, ast.Subscript) and isinstance(y.slice, ast.Constant) and isinstance(y.slice.value, int)):
+        return None
+    coll_y = y.value
+    if "align_" in _txt(coll_y)[:80] or _is_align_call(coll_y):
+        return None
+    # storage of an arbitrary element Σelem(C), names of C[k]
+    if is_S(x, "elem") and _txt(x.args[0]) == _txt(coll_y):
+        return _txt(coll_y)
+    # after comprehension fusion: storage of <elt> for an arbitrary element, names of [<elt> for ...][k]
+    if isinstance(coll_y, (ast.ListComp, ast.GeneratorExp)) and _txt(coll_y.elt) == _txt(x) \
+            and any(is_S(n, "elem") for n in walk_shared(x)):
+        return _txt(coll_y)
     return None
 
 
